@@ -166,6 +166,9 @@ def main(argv=None):
         if tier == "quick" and b.get("thorough_only"):
             continue
         args = [x.replace("{seed}", str(seed)).replace("{tier}", tier) for x in b["args"]]
+        if b.get("python") and not os.path.exists(b["python"]):
+            bounded.append({"tool": b["name"], "bound": b.get("bound", ""), "rc": None, "note": "interpreter %s missing (run ./setup.sh): bounded check skipped" % b["python"]})
+            continue
         rc, data, raw = run_native(b["script"], args, timeout=b.get("timeout", 900), python=b.get("python", VENV_PY))
         entry = {"tool": b["name"], "bound": b.get("bound", ""), "rc": rc}
         if data:
@@ -220,6 +223,8 @@ def main(argv=None):
         has_sat = any(r.status == "failed" for _, r in new_fail)
         rep = None
         rp = spec.get("replay")
+        if rp and rp.get("python") and not os.path.exists(rp["python"]):
+            rp = None
         if rp:
             args = [x.replace("{seed}", str(seed)).replace("{tier}", tier) for x in rp["args"]]
             rc, data, raw = run_native(rp["script"], args, timeout=rp.get("timeout", 600), python=rp.get("python", VENV_PY))
